@@ -47,7 +47,8 @@ def main():
         if demo:
             rc, o = sh(['go', 'build', './...'], cwd=wt)
             print('build:', 'ok' if rc == 0 else 'FAILS ' + o[-300:])
-            rc, o = sh(['go', 'test', '-vet=off', '-count=1', './...'], cwd=wt)
+            # the suite binds a fixed port: one run at a time
+            rc, o = sh(['flock', '/tmp/verif-suite.lock', 'go', 'test', '-vet=off', '-count=1', './...'], cwd=wt)
             print('existing suite with the change:', 'passes' if rc == 0 else 'FAILS ' + o[-600:])
             shutil.copy(demo, os.path.join(wt, 'zz_demo_seeded_test.go'))
             import re
